@@ -214,6 +214,12 @@ def apply_api(model: onnx.ModelProto, o: dict) -> onnx.ModelProto:
         return ir.serde.serialize_model(r)
     if api == "optimize":
         return opt.optimize(m, **kw)
+    if api == "optimize_then_expand_rules":
+        # the shape-driven rule set that is exported but not part of the default set
+        from onnxscript.rewriter.rules import common as rc
+
+        m1 = opt.optimize(m, **kw)
+        return rewriter.rewrite(m1, pattern_rewrite_rules=rc.expand_before_binary_op_rules)
     if api == "fold_constants":
         opt.fold_constants(m, **kw)
         return m
@@ -275,6 +281,30 @@ def reduction_scale(m):
     return 1.0 + 0.25 * n + 4.0 * heavy
 
 
+def has_f16(m):
+    F16 = onnx.TensorProto.FLOAT16
+
+    def g_has(g):
+        for x in list(g.input) + list(g.output) + list(g.value_info):
+            if x.type.tensor_type.elem_type == F16:
+                return True
+        if any(t.data_type == F16 for t in g.initializer):
+            return True
+        for n in g.node:
+            for a in n.attribute:
+                if a.name == "to" and a.i == F16:
+                    return True
+                if a.HasField("t") and a.t.data_type == F16:
+                    return True
+                if a.HasField("g") and g_has(a.g):
+                    return True
+                if any(g_has(x) for x in a.graphs):
+                    return True
+        return False
+
+    return g_has(m.graph)
+
+
 def equivalent(m1, m2, feeds_list, base_outs=None, nondet=()):
     """-> (verdict, detail)   verdict in ok | <kind> | inconclusive:<why>
     kinds: load, run, count, dtype, shape, value"""
@@ -309,13 +339,17 @@ def equivalent(m1, m2, feeds_list, base_outs=None, nondet=()):
                     break
             if d.startswith("output count"):
                 kind = "count"
-            # disputing witness
+            # disputing witness: onnx.reference finds both models equal while ORT does not.
+            # (a) the reference disagrees with ORT already on the ORIGINAL -> a runtime quirk, not the optimizer;
+            # (b) float16 compute: ORT's CPU EP elevates f16 ops to f32 and drops back-to-back casts depending on graph
+            #     structure, so a value-only difference in a model that computes in f16 is a runtime artefact.
             r1, ro1 = runner.ref_run(m1, feeds)
             r2, ro2 = runner.ref_run(m2, feeds)
             if r1 == "ok" and r2 == "ok" and compare.compare_outputs(ro1, ro2, scale=scale) is None:
-                # the reference evaluator sees them equal while ORT does not: does the reference agree with ORT on the original?
                 if compare.compare_outputs(o1, ro1, scale=scale * 4, check_dtype=False) is not None:
                     return "inconclusive:disputed", f"feed {k}: {d} (onnx.reference finds both models equal and disagrees with ORT on the original)"
+                if kind == "value" and has_f16(m1):
+                    return "inconclusive:disputed_f16", f"feed {k}: {d} (float16 compute; onnx.reference finds both models equal)"
             return kind, f"feed {k}: {d}"
     return "ok", None
 
